@@ -316,41 +316,41 @@ where
         cell_key: CellKey,
         vertex: Vertex<K::Scalar, U, D>,
     ) -> Result<FlipInfo<D>, FlipError> {
-        // The flip edits the `Tds` directly: the insertion caches no longer describe it.
-        self.invalidate_insertion_caches();
-        self.tri.flip_k1_insert(cell_key, vertex)
+        let result = self.tri.flip_k1_insert(cell_key, vertex);
+        self.invalidate_insertion_caches_after_flip(&result);
+        result
     }
 
     fn flip_k1_remove(&mut self, vertex_key: VertexKey) -> Result<FlipInfo<D>, FlipError> {
-        // The flip edits the `Tds` directly: the insertion caches no longer describe it.
-        self.invalidate_insertion_caches();
-        self.tri.flip_k1_remove(vertex_key)
+        let result = self.tri.flip_k1_remove(vertex_key);
+        self.invalidate_insertion_caches_after_flip(&result);
+        result
     }
 
     fn flip_k2(&mut self, facet: FacetHandle) -> Result<FlipInfo<D>, FlipError> {
-        // The flip edits the `Tds` directly: the insertion caches no longer describe it.
-        self.invalidate_insertion_caches();
-        self.tri.flip_k2(facet)
+        let result = self.tri.flip_k2(facet);
+        self.invalidate_insertion_caches_after_flip(&result);
+        result
     }
 
     fn flip_k3(&mut self, ridge: RidgeHandle) -> Result<FlipInfo<D>, FlipError> {
-        // The flip edits the `Tds` directly: the insertion caches no longer describe it.
-        self.invalidate_insertion_caches();
-        self.tri.flip_k3(ridge)
+        let result = self.tri.flip_k3(ridge);
+        self.invalidate_insertion_caches_after_flip(&result);
+        result
     }
 
     fn flip_k2_inverse_from_edge(&mut self, edge: EdgeKey) -> Result<FlipInfo<D>, FlipError> {
-        // The flip edits the `Tds` directly: the insertion caches no longer describe it.
-        self.invalidate_insertion_caches();
-        self.tri.flip_k2_inverse_from_edge(edge)
+        let result = self.tri.flip_k2_inverse_from_edge(edge);
+        self.invalidate_insertion_caches_after_flip(&result);
+        result
     }
 
     fn flip_k3_inverse_from_triangle(
         &mut self,
         triangle: TriangleHandle,
     ) -> Result<FlipInfo<D>, FlipError> {
-        // The flip edits the `Tds` directly: the insertion caches no longer describe it.
-        self.invalidate_insertion_caches();
-        self.tri.flip_k3_inverse_from_triangle(triangle)
+        let result = self.tri.flip_k3_inverse_from_triangle(triangle);
+        self.invalidate_insertion_caches_after_flip(&result);
+        result
     }
 }
